@@ -135,3 +135,27 @@ package xds
 //@ loop 1 invariant[count] len(rbacIxns) <= range1_idx
 //@ loop 1 invariant[each-rule-built-with-its-own-peer-trust-bundle] forall k int :: 0 <= k && k < len(rbacIxns) ==> exists j int :: 0 <= j && j < range1_idx && rbacIxns[k] == ret0[*rbacIntention](intentionToIntermediateRBACForm(intentions[j], localInfo, isHTTP, trustBundlesByPeer[intentions[j].SourcePeer], providerMap))
 
+
+//@ file listeners.go
+// ---- C14 (listener assembly, structural): the HTTP RBAC filter is injected into EVERY filter chain of the public
+// listener, or the injection reports an error - makeInboundListener relies on that error to fall back to the network
+// RBAC filter on every chain, so a chain silently skipped here would be delivered with no authorization filter at all.
+//@ pure isHCM(f *envoy_listener_v3.Filter) bool = f != nil && (f.Name == httpConnectionManagerOldName || f.Name == httpConnectionManagerNewName)
+//@ pure chainHasHCM(c *envoy_listener_v3.FilterChain) bool = c != nil && exists fi int :: 0 <= fi && fi < len(c.Filters) && isHCM(c.Filters[fi])
+//@ func makeFilter
+//@ trusted
+//@ results mf, merr
+//@ ensures[named-as-asked] merr == nil ==> mf != nil && mf.Name == name
+//@ modifies nothing
+//@ func injectHTTPFilterOnFilterChains
+//@ props C14
+//@ results err
+//@ requires listener != nil
+//@ requires[chains-well-formed] forall ci int :: 0 <= ci && ci < len(listener.FilterChains) ==> listener.FilterChains[ci] != nil && forall fi int :: 0 <= fi && fi < len(listener.FilterChains[ci].Filters) ==> listener.FilterChains[ci].Filters[fi] != nil
+//@ requires[chains-distinct] forall a int, b int :: 0 <= a && a < b && b < len(listener.FilterChains) ==> listener.FilterChains[a] != listener.FilterChains[b]
+//@ ensures[no-chain-is-skipped] err == nil ==> forall ci int :: 0 <= ci && ci < len(listener.FilterChains) ==> old(chainHasHCM(listener.FilterChains[ci]))
+//@ loop 1 invariant[chains-so-far-had-a-connection-manager] 0 <= range1_idx && forall ci int :: 0 <= ci && ci < range1_idx ==> old(chainHasHCM(listener.FilterChains[ci]))
+//@ loop 2 invariant[none-before-the-cursor] hcmFilter == nil ==> forall fi int :: 0 <= fi && fi < range2_idx ==> !isHCM(chain.Filters[fi])
+//@ loop 1 invariant[unprocessed-chains-untouched] eq(listener.FilterChains, old(listener.FilterChains)) && forall ci int :: range1_idx <= ci && ci < len(listener.FilterChains) ==> eq(listener.FilterChains[ci].Filters, old(listener.FilterChains[ci].Filters))
+//@ loop 1 invariant[filter-names-kept] forall p *envoy_listener_v3.Filter :: !fresh(p) ==> p.Name == old(p.Name)
+//@ loop 2 invariant[found-is-a-connection-manager-of-this-chain] hcmFilter != nil ==> 0 <= hcmFilterIdx && hcmFilterIdx < len(chain.Filters) && chain.Filters[hcmFilterIdx] == hcmFilter && isHCM(hcmFilter)
